@@ -157,7 +157,7 @@ impl Scenario for C11 {
             real: vec!["core::comms::tcp_codec::TcpCodec (Decoder+Encoder)", "tokio_util FramedRead", "client::transport::buffer::SendBuffer", "Chunker::encode", "SecureChannel::apply_security (policy None)"],
             stubbed: vec!["socket (simulated AsyncRead/AsyncWrite)", "client poll loop (harness mirrors TcpTransport::poll_inner's use of the send buffer)"],
             assumptions: vec!["send-buffer part uses security policy None; secured chunk bytes are covered by C07"],
-            fault_kinds: vec!["read_split", "read_pending", "short_write", "write_pending", "write_cancel"],
+            fault_kinds: vec!["read_split", "read_pending", "short_write", "write_pending", "write_cancel", "frame_over_message_size_limit"],
         }
     }
     fn runs(&self, tier: Tier) -> u64 {
@@ -200,7 +200,7 @@ impl Scenario for C11 {
                     4 => rng.below(20000),
                     _ => rng.below(64),
                 };
-                let n = if k == "hel" { n.min(4000) } else { n };
+                let n = if k == "hel" { n.min(12_000) } else { n };
                 frames.push((k.to_string(), n));
             }
             let fr: Vec<(&str, u64)> = frames.iter().map(|(k, n)| (k.as_str(), *n)).collect();
@@ -226,7 +226,10 @@ impl Scenario for C11 {
                 segs.push(s);
                 left -= s;
             }
-            json!({"mode": "codec", "steps": steps_json(&fr), "segs": segs, "pending": rng.chance(0.5)})
+            // some runs decode under a small message-size limit, so that some frames are over it:
+            // the refusal must not depend on the segmentation either
+            let max_msg = if rng.chance(0.15) { *rng.pick(&[8192usize, 8300, 9000, 12000]) } else { 0 };
+            json!({"mode": "codec", "steps": steps_json(&fr), "segs": segs, "pending": rng.chance(0.5), "max_msg": max_msg})
         } else {
             let nmsg = rng.urange(1, 4);
             let buffer = *rng.pick(&[8196usize, 8196, 8197, 9001, 16384, 65536]);
@@ -372,10 +375,17 @@ fn exec_codec(plan: &Value, ctx: &mut Ctx) {
         ctx.probe("single_byte_reads");
     }
 
+    let max_msg = plan["max_msg"].as_u64().unwrap_or(0) as usize;
+    let options = if max_msg > 0 {
+        ctx.fault("frame_over_message_size_limit");
+        DecodingOptions { max_message_size: max_msg, ..Default::default() }
+    } else {
+        DecodingOptions::default()
+    };
     // reference: whole stream at once through the codec
     let mut reference: Vec<Vec<u8>> = Vec::new();
     {
-        let mut codec = TcpCodec::new(DecodingOptions::default());
+        let mut codec = TcpCodec::new(options.clone());
         let mut buf = BytesMut::from(&stream[..]);
         loop {
             match codec.decode(&mut buf) {
@@ -388,13 +398,14 @@ fn exec_codec(plan: &Value, ctx: &mut Ctx) {
             }
         }
     }
-    if reference != frames {
+    let limited = max_msg > 0;
+    if !limited && reference != frames {
         ctx.violate("C11", "unsegmented-decode", "", format!("decoding the unsegmented stream yields {} frames, sender wrote {}", reference.len(), frames.len()));
     }
 
     // segmented: real FramedRead over the simulated reader
     let reader = SegReader::new(stream.clone(), segs.clone(), pending);
-    let mut framed = FramedRead::new(reader, TcpCodec::new(DecodingOptions::default()));
+    let mut framed = FramedRead::new(reader, TcpCodec::new(options.clone()));
     let mut got: Vec<Vec<u8>> = Vec::new();
     let mut polls = 0u64;
     let mut outcome = "eof";
@@ -426,6 +437,22 @@ fn exec_codec(plan: &Value, ctx: &mut Ctx) {
         &format!("codec kinds={} cls={} out={}", steps.iter().map(|s| s["f"].as_str().unwrap_or("?").chars().next().unwrap_or('?')).collect::<String>(), cls, outcome),
         &format!("frames={} bytes={} segs={}", got.len(), stream.len(), segs.len()),
     );
+    if limited {
+        // differential: the segmented receiver must yield what the unsegmented one yields, frame
+        // for frame, including where it refuses the stream
+        let ref_error = reference.last().map(|f| f.as_slice() == b"ERR").unwrap_or(false);
+        let ref_frames: Vec<Vec<u8>> = reference.iter().filter(|f| f.as_slice() != b"ERR").cloned().collect();
+        let same = got == ref_frames && ((outcome == "error") == ref_error) && outcome != "stuck";
+        if !same {
+            ctx.violate(
+                "C11",
+                "codec-frames-differ",
+                "under-size-limit",
+                format!("with a maximum message size of {}: segmented read yields {} frames (outcome {}), the unsegmented read yields {} frames (outcome {})", max_msg, got.len(), outcome, ref_frames.len(), if ref_error { "error" } else { "eof" }),
+            );
+        }
+        return;
+    }
     if got != frames || outcome != "eof" {
         let first_bad = got.iter().zip(frames.iter()).position(|(a, b)| a != b).unwrap_or(got.len().min(frames.len()));
         ctx.violate(
